@@ -49,6 +49,23 @@ def edge_aligned_trapezoids(rng):
     return out
 
 
+def blit_like(rng):
+    """same-format, same-size, same-stride copies of whole images and of windows (the shape memcpy-style shortcuts
+       are written for), with padded strides, in every observation mode"""
+    out = []
+    fmts = [F[k] for k in ("a8r8g8b8", "x8r8g8b8", "r5g6b5", "a8", "r8g8b8", "x1r5g5b5", "b8g8r8a8", "a1", "a4r4g4b4")]
+    ident = [FX1, 0, 0, 0, FX1, 0, 0, 0, FX1]
+    for fmt in fmts:
+        for (w, h) in ((10, 4), (1, 3), (7, 1), (16, 2), (33, 3)):
+            for mode in (0, 1, 2):
+                for (x, y, cw, ch) in ((0, 0, w, h), (0, 0, w, max(1, h - 1)), (0, 1 if h > 1 else 0, w, 1), (1, 0, max(1, w - 1), h)):
+                    for op in (1, 3):
+                        f = [mode, op, fmt, w, h, 0, 0, 3] + ident + [0, 1, 1, fmt, w, h, 0, x, y, 0, 0, x, y, cw, ch,
+                                                                    rng.randrange(1, 2 ** 31)]
+                        out.append("C %d %s" % (len(f), " ".join(str(int(v)) for v in f)))
+    return out
+
+
 def gen(rng, n):
     out = []
     fm = [F[k] for k in ("a8r8g8b8", "x8r8g8b8", "r5g6b5", "a8", "a1", "r8g8b8", "a4r4g4b4", "x2r10g10b10", "r3g3b2")]
@@ -149,6 +166,9 @@ def run(prop, args):
     exe, px = vf.build_driver("drv_bounds", "plain")
     chk.extra["build"] = px["hash"]
     reqs = gen(rng, 700 if quick else 6000)
+    blits = blit_like(rng)
+    reqs += blits if not quick else rng.sample(blits, 500)
+    chk.extra["blit_like_requests"] = len(blits)
     edge = edge_aligned_trapezoids(rng)
     reqs += edge if not quick else rng.sample(edge, 700)
     chk.extra["edge_aligned_trapezoid_requests"] = len(edge)
